@@ -105,7 +105,8 @@ def run_concurrent(ctx, nsessions):
                           "req": [[("q%d" % j).encode().hex(), cc.rval(rng).hex()] for j in range(rng.randrange(0, 3))],
                           "hadd": [[("h%d" % j).encode().hex(), (b"%d/%d:" % (si, i) + cc.rval(rng)).hex()] for j in range(rng.randrange(1, 4))],
                           "size": size if same_size else rng.randrange(0, 3000),
-                          "delay": rng.choice([0, 0, 50, 300])})
+                          "delay": rng.choice([0, 0, 50, 300]),
+                          "onward": rng.random() < 0.35})
         reqs.append({"calls": calls, "rounds": 3})
     rc, resps, err = hc.run_lines([os.path.join(vlib.BIN, "vh_ctx"), "concurrent"], reqs, timeout=900)
     ncalls = bad = 0
@@ -122,6 +123,9 @@ def run_concurrent(ctx, nsessions):
                 why = None
                 want = {k: v for k, v in c["hadd"]}
                 want[b"_cid".hex()] = c["cid"]
+                if c.get("onward"):
+                    # the handler called on with the context it was given: what the leaf answered travels back through it
+                    want[b"leaf".hex()] = c["cid"]
                 got = {k: v for k, v in o.get("resp") or []}
                 seen = {k: v for k, v in o.get("seen") or []}
                 if o.get("err"):
@@ -139,7 +143,8 @@ def run_concurrent(ctx, nsessions):
     return {"sessions": len(reqs), "calls": ncalls, "failures": bad,
             "rule": "2..8 calls in flight at once through one FStandardClient over one adapter transport (loopback TCP, FSimpleServer, "
                     "FBaseProcessor), 3 rounds, own correlation id / request headers / handler response headers per call, equal-sized "
-                    "replies in half of the sessions; direct oracle only"}
+                    "replies in half of the sessions; a third of the handlers make an onward two-way call WITH the context they were given between "
+                    "their response headers (two hops: what the leaf sets and what the handler sets before and after must all reach the first caller); direct oracle only"}
 
 
 def run(ctx, br):
